@@ -191,7 +191,31 @@ def run_case(cs):
         return
     eff = dict(ren)  # original path -> current path
     # ---- optional second step in a later generation
-    second = rng.choice(["none", "none", "chain", "back", "long", "reuse"])
+    second = rng.choice(["none", "none", "chain", "back", "long", "reuse", "shift"])
+    if second == "shift":
+        # names handed on within one step: q -> q2 and, at the same time, p -> q
+        cur = sorted(f for f, v in world.read_tree(root).items() if v is not None)
+        if len(cur) < 2:
+            second = "none"
+        else:
+            p_, q_ = rng.sample(cur, 2)
+            q2 = os.path.join(os.path.dirname(q_), "s2-" + world.gen_name(rng, "plain"))
+            if os.path.lexists(os.path.join(root, q2)):
+                second = "none"
+            else:
+                os.rename(os.path.join(root, q_), os.path.join(root, q2))
+                os.rename(os.path.join(root, p_), os.path.join(root, q_))
+                steps.append(f"shift: {q_!r} -> {q2!r} and {p_!r} -> {q_!r} in one step")
+                cs.count("names_handed_on_in_one_step")
+                ren3 = {q_: q2, p_: q_}
+                if not _dr_step(cs, root, fm2, ren3, {"steps": steps, "renames": ren3, "classes": ["shift"]}, steps, rel_fmt, {"shift"}, prior, "shift"):
+                    return
+                for o, n in list(eff.items()):
+                    if n in ren3:
+                        eff[o] = ren3[n]
+                for o, n in ren3.items():
+                    if o not in eff.values():
+                        eff.setdefault(o, n)
     if second == "reuse":
         # a name that was given away by a recorded rename is taken by another file in a later generation
         freed = rng.choice(sorted(ren))
@@ -286,7 +310,7 @@ def _dr_step(cs, root, fm, ren, ctx, steps, rel_fmt, classes, prior, stage):
         cs.violation(key, {**classify.internal_sig(r, "create-dr"), "newdir": "newdir" in classes, "fmt": rel_fmt}, {**ctx, **r.brief()})
         return False
     if r.exit != 0:
-        key = "rename-chain-across-generations" if stage in ("chain", "back") else "name-reused-after-rename" if stage == "reuse" else "dr-create-nonzero"
+        key = "rename-chain-across-generations" if stage in ("chain", "back") else "name-reused-after-rename" if stage in ("reuse", "shift") else "dr-create-nonzero"
         cs.violation(key, {"kind": "dr-exit", "exit": r.exit, "stage": stage, "fmt": rel_fmt, "classes": sorted(classes)}, {**ctx, "out": r.text[-500:]})
         return False
     names = [n for n in new.get(".", []) if n.endswith(".mhl")]
@@ -301,7 +325,7 @@ def _dr_step(cs, root, fm, ren, ctx, steps, rel_fmt, classes, prior, stage):
         if rec is None:
             cs.violation("renamed-file-not-recorded", {"kind": "dr-record-missing", "stage": stage}, {**ctx, "new": nw})
         elif rec["previousPath"] != old:
-            cs.violation("previous-path-wrong", {"kind": "dr-previous-path", "got_none": rec["previousPath"] is None, "stage": stage, "fmt": rel_fmt, "classes": sorted(classes)}, {**ctx, "new": nw, "got": rec["previousPath"], "want": old})
+            cs.violation("name-reused-after-rename" if stage in ("reuse", "shift") else "previous-path-wrong", {"kind": "dr-previous-path", "got_none": rec["previousPath"] is None, "stage": stage, "fmt": rel_fmt, "classes": sorted(classes)}, {**ctx, "new": nw, "got": rec["previousPath"], "want": old})
     for p, rec in recs.items():
         if rec["previousPath"] is not None and p not in ren.values():
             cs.violation("previous-path-on-unrenamed-file", {"kind": "dr-previous-path-extra"}, {**ctx, "path": p, "prev": rec["previousPath"]})
@@ -324,7 +348,7 @@ def _dr_step(cs, root, fm, ren, ctx, steps, rel_fmt, classes, prior, stage):
             cs.violation(classify.internal_key(r2), classify.internal_sig(r2, cmd + "-after-dr"), {**ctx, **r2.brief()})
             return False
         if r2.exit != 0:
-            key = "rename-chain-across-generations" if stage in ("chain", "back") else "name-reused-after-rename" if stage == "reuse" else "followup-after-dr-nonzero"
+            key = "rename-chain-across-generations" if stage in ("chain", "back") else "name-reused-after-rename" if stage in ("reuse", "shift") else "followup-after-dr-nonzero"
             cs.violation(key, {"kind": "after-dr", "cmd": cmd, "exit": r2.exit, "stage": stage}, {**ctx, "out": r2.text[-500:]})
             return False
     # the generation written by the follow-up create knows the renamed files under their new names: verified, not original
